@@ -66,7 +66,8 @@ def find_element_that_meets_mh(stack, metahandler):
 
 
 def create_tree_using_stacks(g: Grammar, r: ListWrapper, failures_limit=100):
-    all_stack_types = g.get_all_mentioned_symbols()
+    # A set has no reproducible iteration order (it follows hashes, i.e. addresses): fix the order of the symbols.
+    all_stack_types = sorted(g.get_all_mentioned_symbols(), key=str)
 
     stacks: dict[type, list[Any]] = {k: [] for k in all_stack_types}
 
